@@ -135,6 +135,12 @@ def case_bounds(ops, idx):
 def run_slice(pid, name, n, seed, workdir, log):
     """returns dict(status, lines, cases, stats, disagreement, oracle_failures)"""
     res = {"slice": name, "n": n}
+    journal = os.path.join(workdir, f"{name}.journal")
+    ENV["CVH_JOURNAL"] = journal
+    try:
+        os.remove(journal)
+    except OSError:
+        pass
     try:
         r = run([CVH, name, "--seed", str(seed), "--n", str(n), "--out", workdir], timeout=14400)
     except subprocess.TimeoutExpired:
@@ -145,6 +151,9 @@ def run_slice(pid, name, n, seed, workdir, log):
     if r.returncode != 0:
         res["status"] = "harness-crash"
         res["detail"] = r.stdout[-2000:]
+        # the request that was being executed in-process when the harness died (pure slices)
+        if os.path.exists(journal):
+            res["last_input"] = open(journal).read()[:20000]
         return res
     ops_p = os.path.join(workdir, f"{name}.ops")
     with open(ops_p) as fi, open(os.path.join(workdir, f"{name}.model"), "w") as fo:
@@ -231,7 +240,13 @@ def main():
     concrete = False
     for s in slices:
         if s["status"] != "ok":
-            violations.append((write_replay("crash", {"property": pid, "what": s["status"], "slice": s["slice"], "detail": s.get("detail")}), " no-failing-input-found"))
+            if s.get("last_input"):
+                # the process running the code under test aborted on this very input
+                concrete = True
+                violations.append((write_replay("abort", {"property": pid, "kind": "implementation aborted the process on this input",
+                    "what": s["status"], "slice": s["slice"], "request": s["last_input"], "detail": s.get("detail")}), ""))
+            else:
+                violations.append((write_replay("crash", {"property": pid, "what": s["status"], "slice": s["slice"], "detail": s.get("detail")}), " no-failing-input-found"))
             continue
         for f in s["oracle_failures"][:5]:
             sig = next((k for k in known if re.search(k["signature"], f["what"])), None)
